@@ -222,7 +222,7 @@ impl EventSource for Park {
         // if we not deleted the timer in time
         let timeout = self.timeout.take();
         // the earliest possible deadline of the timer
-        let deadline = timeout.map(|dur| now().saturating_add(dur.as_nanos() as u64));
+        let deadline = timeout.map(|dur| now().saturating_add(dur.as_nanos().min(u64::MAX as u128) as u64));
         // register the cancel data before the coroutine is published. afterwards it
         // can be resumed and block on another park: a registration done then would
         // replace the new one, and a cancel of the coroutine would find nobody to wake
